@@ -654,6 +654,42 @@ func (b *vecBox) ReadFrom(r io.Reader) (n int64, err error) {
 	return 1, nil
 }
 
+// NTTLAST control: the last layer follows the alternation
+func butterfly(U, V, Psi, twoQ, fourQ, Q, MRedConstant uint64) (uint64, uint64) {
+	if U >= fourQ {
+		U -= fourQ
+	}
+	V = ring.MRedLazy(V, Psi, Q, MRedConstant)
+	return U + V, U + twoQ - V
+}
+
+func nttToyLazy(p2 []uint64, N int, Q, MRedConstant uint64, roots []uint64) {
+	twoQ, fourQ := 2*Q, 4*Q
+	t := N
+	var V uint64
+	for m := 1; m < N; m <<= 1 {
+		reduce := m&2 == 0
+		t >>= 1
+		if t >= 2 {
+			for i := 0; i < m; i++ {
+				j1 := 2 * i * t
+				for j := j1; j < j1+t; j++ {
+					p2[j], p2[j+t] = butterfly(p2[j], p2[j+t], roots[m+i], twoQ, fourQ, Q, MRedConstant)
+				}
+			}
+		} else {
+			for i := 0; i < m; i++ {
+				if reduce {
+					p2[2*i], p2[2*i+1] = butterfly(p2[2*i], p2[2*i+1], roots[m+i], twoQ, fourQ, Q, MRedConstant)
+				} else {
+					V = ring.MRedLazy(p2[2*i+1], roots[m+i], Q, MRedConstant)
+					p2[2*i], p2[2*i+1] = p2[2*i]+V, p2[2*i]+twoQ-V
+				}
+			}
+		}
+	}
+}
+
 // INDEG control: the first two components of the input, whatever its degree
 func (e fixEvaluator) SumTwo(ctIn, opOut *rlwe.Ciphertext) {
 	e.r.Add(ctIn.Value[0], ctIn.Value[1], opOut.Value[0])
